@@ -17,7 +17,7 @@ SPEC = {
     "claim": {
         "category": "exploration",
         "technique": "bounded-exhaustive class-alphabet strings + mutation-based generation (rapidcheck, libFuzzer) judged against a per-unit reference decoder; differential default-vs-explicit mode over four build configurations",
-        "text": "All short strings over class alphabets of each encoding are enumerated and every reader x mode x Latin-1 flag is compared with a per-unit reference decoder (accept/reject decision, exact repaired output, re-validation of repaired output); generated inputs place malformed and tolerated-irregular units between multi-unit neighbours. The harness is compiled under all four settings of ST_DEFAULT_VALIDATION and ~50 entry points per encoding called without a mode must equal the call with the configured mode. For UTF-8 input a string that already holds the raw bytes is validated / repaired from its own storage (s.set(s.c_str()+k, n, mode), s.set(string_view into s, mode)) in all three modes.",
+        "text": "All short strings over class alphabets of each encoding are enumerated and every reader x mode x Latin-1 flag is compared with a per-unit reference decoder (accept/reject decision, exact repaired output, re-validation of repaired output); generated inputs place malformed and tolerated-irregular units between multi-unit neighbours. The harness is compiled under all four settings of ST_DEFAULT_VALIDATION and ~50 entry points per encoding called without a mode must equal the call with the configured mode. For UTF-8 input a string that already holds the raw bytes is validated / repaired from its own storage (s.set(s.c_str()+k, n, mode), s.set(string_view into s, mode)) in all three modes. Texts are appended (+=, +) to receivers that hold never-validated bytes (a dangling lead byte, FF): the text is accepted or rejected exactly as on its own.",
         "level_note": "Exhaustive only for the stated short class-alphabet strings; longer inputs sampled. The reference decoder is the trusted reading of the statement.",
     },
 }
